@@ -84,7 +84,7 @@ check("C17", "model_checking",
       "exhaustive enumeration of size vectors on the real chooser + exhaustive per-step checking of workload histories on the real Stack", "DESIGN.md 6/C17", "autocompact")
 
 check("C18", "fault_enumeration",
-      "Deviation-bounded corruption of a corpus of valid tables, one per distinct layout the writer produces (both versions, padded/unaligned, refs/logs/both, 0-2 index levels, object index): 0 deviations = the table; 1 deviation = EVERY offset x a 14-value alphabet (thorough: all 255 other values), every truncation length, every one-byte insertion and deletion, and every offset x value inside the inflated payload of a final log block (re-deflated); 2 deviations = all pairs of substitutions over structural bytes (block headers, restart tables, first-record varints, footer positions). The footer CRC is repaired and header edits mirrored into the footer whenever the edit touches them (both variants are run). Each mutant goes through NewReader, full ref and log scans, seeks, and RefsFor via the library's own ByteBlockSource; every call must return: no panic (attributed to its innermost reftable frame), no hang (deterministic read/step budgets), no unbounded allocation (per-input allocation budget; workers under an address-space limit so that a fatal out-of-memory is attributed to the mutant).",
+      "Deviation-bounded corruption of a corpus of valid tables, one per distinct layout the writer produces (both versions, padded/unaligned, refs/logs/both, 0-2 index levels, object index): 0 deviations = the table; 1 deviation = EVERY offset x a 14-value alphabet (thorough: all 255 other values), every truncation length, every one-byte insertion and deletion, every offset x value inside the inflated payload of a final log block (re-deflated), and length-field edits - at EVERY offset an overwrite with hostile varints of 2-10 bytes and with the varint of every block position of the table, of 0 and of the file size, so that every position field gets pointed at every block including its own; 2 deviations = all pairs of substitutions over structural bytes (block headers, restart tables, first-record varints, footer positions). The footer CRC is repaired and header edits mirrored into the footer whenever the edit touches them (both variants are run). Each mutant goes through NewReader, full ref and log scans, seeks, and RefsFor via the library's own ByteBlockSource; every call must return: no panic (attributed to its innermost reftable frame), no hang (deterministic read/step budgets), no unbounded allocation (per-input allocation budget; workers under an address-space limit so that a fatal out-of-memory is attributed to the mutant).",
       "'For all byte strings' is decided for all strings within one edit (two structural edits) of the corpus. Coverage-guided fuzzing, which the property text mentions, is sampling - a different family - and is not used. The enumerated objects are corruptions, hence fault_enumeration.",
       "exhaustive enumeration of 1- and 2-edit corruptions of a layout-covering corpus, driven through every read path of the real reader", "DESIGN.md 6/C18", "corrupt")
 
